@@ -69,8 +69,17 @@ class Scheduler:
         self.ctx = [ClientCtx(i) for i in range(nclients)]
         self.cur_ctx = None
         if files:
-            self.enabled = {os.path.join(env.PENMAN_DIR, f) for f in files}
+            self.enabled = {os.path.join(env.PENMAN_DIR, f) for f in files if not f.startswith('stdlib:')}
         else:
+            self.enabled = None
+        # pure-Python stdlib modules whose frames are pre-emptible too when asked for ('stdlib:copy'): a real
+        # thread can lose the GIL in the middle of copy.deepcopy(graph) just as well as inside penman
+        self.stdlib = set()
+        for f in files or []:
+            if f.startswith('stdlib:'):
+                import importlib
+                self.stdlib.add(importlib.import_module(f[7:]).__file__)
+        if self.enabled is not None and not self.enabled:
             self.enabled = None
         self.preempt_sites = set()
         self.harness_error = None
@@ -78,6 +87,8 @@ class Scheduler:
     # ---- tracing ---------------------------------------------------------------
     def _global(self, frame, event, arg):
         fn = frame.f_code.co_filename
+        if fn in self.stdlib:
+            return self._local
         if self.enabled is None:
             if fn.startswith(env.PENMAN_DIR):
                 return self._local
